@@ -86,6 +86,18 @@ Proof.
 Qed.
 Print Assumptions C17_ned_enu_involution.
 
+(* (3,3) and (4,3) arrays are transformed row by row as well (a square array is not transposed) *)
+Theorem C17_ned_enu_involution_arrays : forall x1 y1 z1 x2 y2 z2 x3 y3 z3 x4 y4 z4,
+  C17_ned2enu_rows3_R x1 y1 z1 x2 y2 z2 x3 y3 z3 = Val [y1; x1; - z1; y2; x2; - z2; y3; x3; - z3] /\
+  C17_enu2ned_rows3_R y1 x1 (- z1) y2 x2 (- z2) y3 x3 (- z3) = Val [x1; y1; z1; x2; y2; z2; x3; y3; z3] /\
+  C17_ned2enu_rows4_R x1 y1 z1 x2 y2 z2 x3 y3 z3 x4 y4 z4 = Val [y1; x1; - z1; y2; x2; - z2; y3; x3; - z3; y4; x4; - z4] /\
+  C17_enu2ned_rows4_R y1 x1 (- z1) y2 x2 (- z2) y3 x3 (- z3) y4 x4 (- z4) = Val [x1; y1; z1; x2; y2; z2; x3; y3; z3; x4; y4; z4].
+Proof.
+  intros. destruct (ned_enu_rows3 x1 y1 z1 x2 y2 z2 x3 y3 z3) as [A B].
+  destruct (ned_enu_rows4 x1 y1 z1 x2 y2 z2 x3 y3 z3 x4 y4 z4) as [C D]. repeat split; assumption.
+Qed.
+Print Assumptions C17_ned_enu_involution_arrays.
+
 (* ENU -> DCA -> ENU and DCA -> ENU -> DCA are identities for every angle (degrees and radians) *)
 Theorem C17_enu_dca_inverse : forall ea no up ang,
   (exists d c k, C17_enu2dca_R ea no up ang = Val [d; c; k] /\ C17_dca2enu_R d c k ang = Val [ea; no; up]) /\
